@@ -198,8 +198,9 @@ var names = []string{"", "a", "b", "pose", "health", "x", "colour"}
 
 func (g *Gen) name() string { return names[g.rnd.Intn(len(names))] }
 
-var secsPool = []int64{0, 1, 5, 5, 10, 10, 100, 1000, 253402300799, -1, -62135596800}
-var nanosPool = []int64{0, 0, 0, 1, 500, 999999999}
+// few distinct seconds, so that timestamps of one entity action often differ only in their nanoseconds
+var secsPool = []int64{0, 1, 5, 5, 5, 5, 5, 10, 10, 10, 10, 100, 1000, 253402300799, -1, -62135596800}
+var nanosPool = []int64{0, 0, 1, 500, 200000000, 800000000, 999999999}
 
 func f32(x float64) string { return strconv.FormatFloat(x, 'g', -1, 32) }
 
